@@ -13,6 +13,7 @@ import (
 	"strconv"
 	"strings"
 	"sync"
+	"sync/atomic"
 	"time"
 )
 
@@ -99,6 +100,7 @@ type Run struct {
 
 	known        []Finding
 	knownPrinted map[string]int
+	stopEarly    int32
 	violations   []violation
 	violKeys     map[string]int
 	inconclusive []string
@@ -421,11 +423,20 @@ func (r *Run) Parallel(phase string, n, workers int, f func(i int, caseSeed int6
 		}(w)
 	}
 	for i := 0; i < n; i++ {
+		if atomic.LoadInt32(&r.stopEarly) != 0 {
+			break
+		}
 		ch <- i
 	}
 	close(ch)
 	wg.Wait()
 }
+
+// StopEarly makes Parallel stop handing out further cases.  For monitors whose
+// violation leaves the process in a state that would distort every later
+// measurement (leaked spinning goroutines, a wallet that never stops): the
+// verdict is already "violated", the remaining cases add nothing.
+func (r *Run) StopEarly() { atomic.StoreInt32(&r.stopEarly, 1) }
 
 // Workers returns the parallelism to use (VERIF_WORKERS or NumCPU).
 func Workers() int {
